@@ -409,7 +409,40 @@ func childRecover(args []string) {
 	raw := fx.RawAccounts(n.DB, st.Hash(), U)
 	stats["account_fields_compared"] = len(obs) + len(raw)
 	if d := fx.Diff(p.ObsAt[st.Hash().Hex()], obs, 4); len(d) > 0 {
-		v("account-state-differs-from-stable-block", fmt.Sprintf("stable height %d (acked %d): %v", st.Height(), ackH, d))
+		// which way? A field whose recovered value is the value of an EARLIER main-chain block (and of no later one) is
+		// older than the stable block the node presents: the block's effects are lost for good (a stable block is never
+		// executed again). Records that are ahead of the stable block are the other, known, window of the commit path
+		want := p.ObsAt[st.Hash().Hex()]
+		older := 0
+		var example string
+		for k, got := range obs {
+			if want[k] == got {
+				continue
+			}
+			ahead, behind := false, false
+			for hs, hh := range p.Heights {
+				var h uint32
+				fmt.Sscan(hs, &h)
+				if o, ok := p.ObsAt[hh]; ok && o[k] == got {
+					if h > st.Height() {
+						ahead = true
+					} else if h < st.Height() {
+						behind = true
+					}
+				}
+			}
+			if behind && !ahead {
+				older++
+				if example == "" {
+					example = fmt.Sprintf("%s = %s (as of an earlier block), the stable block has %s", k, got, want[k])
+				}
+			}
+		}
+		if older > 0 {
+			v("account-state-older-than-stable-block", fmt.Sprintf("stable height %d (acked %d): %d fields hold the value of an earlier block, e.g. %s", st.Height(), ackH, older, example))
+		} else {
+			v("account-state-differs-from-stable-block", fmt.Sprintf("stable height %d (acked %d): %v", st.Height(), ackH, d))
+		}
 	}
 	if d := fx.Diff(p.RawAt[st.Hash().Hex()], raw, 3); len(d) > 0 {
 		v("raw-account-differs-from-stable-block", fmt.Sprintf("stable height %d: %v", st.Height(), d))
